@@ -248,9 +248,71 @@ def version_strings(part):
     return out[part::4]
 
 
+BEHAVIOUR_SCRIPT = [
+    ("in", "1;255;0;0;17;2.1.1"), ("in", "1;255;3;0;11;sketch"), ("in", "1;255;3;0;12;1.0"), ("in", "1;1;0;0;3;relay"),
+    ("in", "1;1;1;0;2;0"), ("in", "1;2;0;0;6;temp"), ("in", "1;2;1;0;0;20.5"),
+    ("in", "1;255;3;0;22;100"),            # heartbeat: the wake-up announcement of 2.0 / 2.1
+    ("set", (1, 1, 2, "1")), ("in", "1;1;2;0;2;"), ("in", "1;255;3;0;6;0"),
+    ("in", "1;255;3;0;22;200"), ("in", "1;1;1;0;2;1"),
+    ("in", "1;255;3;0;32;500"),            # pre sleep notification: the announcement of 2.2
+    ("set", (1, 1, 2, "0")), ("in", "1;2;2;0;0;"), ("in", "1;255;3;0;22;300"), ("in", "1;255;3;0;32;500"),
+    ("in", "9;3;1;0;0;20.5"), ("in", "255;255;3;0;3;"), ("in", "0;255;3;0;14;Gateway startup complete."),
+    ("in", "9;255;3;0;21;0"), ("in", "1;1;1;0;40;ff00ff"), ("in", "1;1;1;0;47;text"), ("in", "1;255;3;0;0;55"),
+    ("in", "1;255;3;0;13;0"), ("in", "1;1;1;1;2;1"), ("in", "1;255;3;0;24;1"), ("in", "1;255;3;0;33;x"),
+    ("set", (1, 2, 0, "21.5")), ("in", "1;255;3;0;22;400"), ("in", "1;255;3;0;32;500"),
+]
+
+
+def behaviour_transcript(v, flavour="sync"):
+    """What a gateway configured with v does with one fixed conversation: sends, callbacks, final node table."""
+    from ..drive import Engine, PumpDied, projection
+
+    eng = Engine(flavour, v)
+    marks = []
+    for kind, arg in BEHAVIOUR_SCRIPT:
+        try:
+            if kind == "in":
+                eng.feed(arg)
+                marks.append(None)
+            else:
+                err = eng.call("set", *arg)
+                marks.append(type(err).__name__ if err is not None else None)
+        except PumpDied:
+            marks.append("raised:" + type(eng.pump_exc).__name__)
+    per = []
+    for k in range(len(BEHAVIOUR_SCRIPT)):
+        per.append((marks[k], [l for (st, o, l) in eng.sent if st == k], [f for (st, f, _p) in eng.cbs if st == k]))
+    return per, projection(eng.gw.sensors)
+
+
 def run_gwversions(job, res):
     from mysensors import BaseAsyncGateway
     from ..drive import AsyncRecT
+
+    canon = {}
+    for (major, minor, patch) in version_strings(job["part"]):
+        v = f"{major}.{minor}" + ("" if patch is None else f".{patch}")
+        want = expected_table(major, minor, patch)
+        if v == want:
+            continue
+        fl = ("sync", "async")[(major + minor + (patch or 0)) % 2]
+        res.evals += 1
+        try:
+            if (want, fl) not in canon:
+                canon[(want, fl)] = behaviour_transcript(want, fl)
+            got = behaviour_transcript(v, fl)
+        except Exception as exc:
+            res.violation(f"gateway-version-raises:{type(exc).__name__}", f"Gateway(protocol_version={v!r}) raised {type(exc).__name__}: {exc}", {"kind": "gwversion", "version": v})
+            continue
+        res.count("gateway_version_conversations_compared")
+        ref = canon[(want, fl)]
+        if got != ref:
+            k = next((i for i in range(len(ref[0])) if got[0][i] != ref[0][i]), None)
+            at = "final-table" if k is None else "after:" + ";".join(str(BEHAVIOUR_SCRIPT[k][1]).split(";")[2:5:2]) if BEHAVIOUR_SCRIPT[k][0] == "in" else "set"
+            res.violation(f"gateway-version-conversation-differs:want={want}:{at}:{'patch0' if patch == 0 else 'patch' if patch else 'nopatch'}",
+                          f"protocol_version {v!r} should select the {want} behaviour, but the same conversation goes differently than with {want!r}"
+                          + (f": at step {k} {BEHAVIOUR_SCRIPT[k]!r} got {got[0][k]!r}, {want!r} gives {ref[0][k]!r}" if k is not None else ": the final node tables differ"),
+                          {"kind": "gwversion", "version": v})
 
     for (major, minor, patch) in version_strings(job["part"]):
         v = f"{major}.{minor}" + ("" if patch is None else f".{patch}")
@@ -630,10 +692,11 @@ def finish(agg, tier):
                 "event callback on the next accepted message; persistence judged by its effect: start_persistence, messages, a save tick, "
                 "more messages, stop, restart - with and without an event callback, json and pickle, every class); first connect attempt and retry delay under fake serial / socket / "
                 "asyncio connect; README constructor snippets executed literally; version strings major 0..3 x minor 0..12 x patch "
-                "{absent,0..3} for the gateway and for the version a node presents, judged against numeric comparison. distinct = "
+                "{absent,0..3} for the gateway and for the version a node presents, judged against numeric comparison - by distinguishing frames and, for the gateway, by running one fixed 32-step conversation (presentations, heartbeat, pre sleep notification, controller commands, requests, unknown node, id request, discover) against the gateway configured with the string and against one configured with the canonical version it must select, sync and asyncio alternating, and comparing every send, callback and the final node table. distinct = "
                 "(class, option subset, value set) / version string.",
         "exhaustive": True,
         "floors": [("constructed", c.get("constructed", 0), 1200), ("gateway_versions_judged", c.get("gateway_versions_judged", 0), 260),
+                   ("gateway_version_conversations_compared", c.get("gateway_version_conversations_compared", 0), 250),
                    ("node_versions_judged", c.get("node_versions_judged", 0), 200), ("readme_snippets_run", c.get("readme_snippets_run", 0), 2),
                    ("connect_attempts_observed", c.get("connect_attempts_observed", 0), 8), ("mqtt_publish_checks", c.get("mqtt_publish_checks", 0), 200),
                    ("persistence_file_spelling:bare", c.get("persistence_file_spelling:bare", 0), 12), ("persistence_file_spelling:default", c.get("persistence_file_spelling:default", 0), 6)]
